@@ -87,6 +87,10 @@ pub fn gen_template(rng: &mut Rng, tag: &str, tabs: bool) -> String {
         if li == 0 {
             l.push_str("{obs}");
         }
+        if !tabs && rng.chance(1, 25) {
+            // an opening brace followed by a line break: literal text that contains a line break
+            l.push_str("{\n");
+        }
         if tabs && rng.chance(1, 6) {
             // "{" followed by whitespace is literal text (only generated where no other literal
             // precedes it on the line: the parser re-orders that case, which is C10's business)
